@@ -76,7 +76,11 @@ class Ctx:
 
     def violation(self, key, msg, **detail):
         """key names the mechanism (class/operation/failure mode), never random values."""
-        if len(self.violations) >= self.MAX_VIOL_PER_CASE:
+        # the cap bounds the size of a flooded case, but never hides a mechanism: the first occurrences of every
+        # distinct key are kept whatever the number of entries (a known finding repeated many times must not mask
+        # another violation of the same case)
+        if len(self.violations) >= self.MAX_VIOL_PER_CASE and (
+                sum(1 for v in self.violations if v["key"] == key) >= 2 or len(self.violations) >= 40 * self.MAX_VIOL_PER_CASE):
             self.counters["violations_dropped"] += 1
             return
         self.violations.append({
